@@ -282,6 +282,15 @@ def _map(nest, f):
     return f(nest)
 
 
+def _flat_pairs(nest):
+    """the [n, d] leaves of a nested list of encoded rationals"""
+    if isinstance(nest, list) and len(nest) == 2 and all(isinstance(v, int) for v in nest):
+        yield nest
+    elif isinstance(nest, list):
+        for v in nest:
+            yield from _flat_pairs(v)
+
+
 def _flat(nest):
     if isinstance(nest, list):
         for v in nest:
